@@ -83,3 +83,19 @@ Proof.
   - unfold CropAndPad_apply in A. exact (crop_and_pad_shape _ _ _ _ _ _ _ _ _ _ _ A).
 Qed.
 Print Assumptions C01_CropAndPad_image_and_mask_same_shape.
+
+(* the target table of a DualTransform (hand model Dispatch.dual_apply, tied to BasicTransform.apply_with_params /
+   DualTransform.targets by harness/corr_dispatch.py): the mask, EVERY entry of masks and every additional target
+   aliased to "mask" go through the one mask hook fm; additional images through the image hook fi *)
+From DV.model Require Import Dispatch.
+Theorem C01_every_mask_target_uses_the_mask_hook : forall fi fm fb fk fd additional z l key,
+  dual_target fi fm fb fk fd "mask" (VArr z) = VArr (fm z) /\
+  dual_target fi fm fb fk fd "masks" (VList l) = VList (map fm l) /\
+  (Dispatch.lookup key additional = Some "mask"%string ->
+   dual_apply fi fm fb fk fd additional [(key, Some (VArr z))] = [(key, Some (VArr (fm z)))]) /\
+  (Dispatch.lookup key additional = Some "image"%string ->
+   dual_apply fi fm fb fk fd additional [(key, Some (VArr z))] = [(key, Some (VArr (fi z)))]).
+Proof.
+  intros. repeat split; try reflexivity; intros E; unfold dual_apply; cbn [map fst snd]; rewrite E; reflexivity.
+Qed.
+Print Assumptions C01_every_mask_target_uses_the_mask_hook.
